@@ -278,12 +278,12 @@ def check_transitions_split(ctx):
         cur = pm[id(cur)]
         if isinstance(cur, ast.For):
             t = norm_text(expand(cur.iter, defs2)).replace(' ', '') if isinstance(cur.iter, ast.Name) else it.sx(cur.iter).replace(' ', '')
-            n_ok = True if t == 'range(n_parts)' or t.startswith('zip(') else None
+            n_ok = True if t == 'range(n_parts)' or t.startswith('zip(') or (t.startswith('map(') and 'zip(' in t) else None
             break
         if isinstance(cur, (ast.ListComp, ast.GeneratorExp)):
             g0 = cur.generators[0].iter
             t = norm_text(expand(g0, defs2)).replace(' ', '') if isinstance(g0, ast.Name) else it.sx(g0).replace(' ', '')
-            n_ok = True if t == 'range(n_parts)' or t.startswith('zip(') else None
+            n_ok = True if t == 'range(n_parts)' or t.startswith('zip(') or (t.startswith('map(') and 'zip(' in t) else None
             break
     ctx.ob('R3', fi, 'number of parts', n_ok, 'one part per piece' if n_ok else 'loop over the pieces not recognised')
     sites = akw.get('sites')
